@@ -255,6 +255,13 @@ def bookkeeping(ctx, crate, crs, e, tag):
                     pd, _ = q.origin_thru(b, c.src["t"]["args"][0], transparent=set())
                     if pd["k"] == "call" and pd["t"]["f"]["name"] == src and q.edge_dominates(b, c.bb, c.target(True), i):
                         okd = True
+                # the same test written as a `match` on the Option that replace / take returned
+                if c.kind == "discr" and c.adt == "std::option::Option" and c.src and c.src.get("k") == "call" and \
+                        c.src["t"]["f"]["name"] == src and not c.src.get("proj"):
+                    want = "None" if pred == "is_none" else "Some"
+                    tgt = c.target(want)
+                    if tgt is not None and q.edge_dominates(b, c.bb, tgt, i):
+                        okd = True
             ctx.ob("len-bookkeeping" + tag, b.key, "len%s1-on-transition" % ("+" if op == "Add" else "-"), okv and okd,
                    "%s:%s" % (b.file, s["line"]), "len changes by one exactly when Option::%s reported %s" % (src, pred))
     b = body_by_key(crate, MP + "insert")
